@@ -42,7 +42,7 @@ JudgeImage(k, c, es, rs, img, before, ps) ==
                               op |-> IF E.ev = "op" THEN E.op.op ELSE E.ev,
                               at |-> DiffAt(ref, img), explen |-> Len(ref), gotlen |-> Len(img),
                               sig |-> k \o "/" \o Owner(k, c, es, rs, DiffAt(ref, img))])
-  /\ Judge("C05", P_C05(k, es, rs, img), F("handles", [rets |-> rs]))
+  /\ Judge("C05", P_C05(k, es, rs, img), F("handles", [nrets |-> Len(rs)]))
   \* C18, accepted side: whatever is emitted has count and length fields that agree with the content
   /\ Judge("C18", P_C02(k, img) /\ P_C03(k, c, es, rs, img, ref), F("fields_disagree_with_content", [emitted |-> Len(img)]))
   /\ Judge("C12", P_C12(k, c, es, rs, img), F("matrix", [emitted |-> Len(img)]))
